@@ -499,7 +499,7 @@ def check_C17(c):
         log("replay %s: %d executions, %d divergences" % (name, stats.get("execs", 0), len(divs)))
 
     lays = {S("C"), S("T"), S("Col")}
-    for fam in ("arith", "cmp", "unary", "reduce"):
+    for fam in ("arith", "cmp", "unary", "reduce", "maskedarg"):
         cases = c.tlc("MC_interp", "interp-" + fam, dict(ShapeId=S("q" if q else "t"), Lays=lays, Family=S(fam)), ["TypeOK", "Emit"])
         rp("interp-" + fam, cases, dtypes="numeric", pals="interp", extra=["-entries", "func,method"])
     # breadth for the measured coverage: masking predicates, typed getters/setters, native conversions, Apply/unary maths
@@ -705,15 +705,25 @@ def check_C18(c):
         runs.append(["-mode", "stress", "-g", "8", "-n", "12", "-procs", "16", "-seed", str(c.seed + 1)])
     for args in runs:
         env2 = dict(GOENV, GORACE="halt_on_error=0 exitcode=0 history_size=3")
-        pr = subprocess.run([race] + args, capture_output=True, text=True, env=env2, timeout=3000)
-        out = pr.stdout + pr.stderr
-        if pr.returncode not in (0,) and "WARNING: DATA RACE" not in out and "PANIC op=" not in out:
-            raise Infra("conc monitor failed (exit %d): %s" % (pr.returncode, out[-2000:]))
+        # a run on a healthy tree takes seconds; a tree that corrupts shared state may spin: bounded, and what it printed
+        # until then is still an observation of the code
+        pp = subprocess.Popen([race] + args, stdout=subprocess.PIPE, stderr=subprocess.STDOUT, text=True, env=env2)
+        try:
+            out, _ = pp.communicate(timeout=240 if q else 1800)
+            rcode = pp.returncode
+        except subprocess.TimeoutExpired:
+            pp.kill()
+            out, _ = pp.communicate()
+            rcode = -9
+            out += "\nPANIC op=(timeout): the run did not finish\n" if ("PANIC op=" in out or "NONDETERMINISTIC" in out or "DATA RACE" in out) else ""
+        if rcode not in (0,) and "WARNING: DATA RACE" not in out and "PANIC op=" not in out:
+            raise Infra("conc monitor failed (exit %d): %s" % (rcode, out[-2000:]))
         m2 = re.search(r"(monitor|stress): .*nondeterministic=(\d+)", out)
         nrace = out.count("WARNING: DATA RACE")
-        if not m2 and not nrace:
+        observed = out.count("PANIC op=") + out.count("NONDETERMINISTIC") + out.count("SHARED-CHANGED")
+        if not m2 and not nrace and not observed:
             raise Infra("conc monitor produced no summary: " + out[-2000:])
-        nd = int(m2.group(2)) if m2 else 0
+        nd = int(m2.group(2)) if m2 else out.count("NONDETERMINISTIC") + out.count("SHARED-CHANGED")
         nd += out.count("PANIC op=")
         c.rep.execs += 1
         c.rep.calls += 1
@@ -770,6 +780,7 @@ def check_C15(c):
                                    ("pred", "all", "ident,signed", []),
                                    ("through", "sizes", "ident", []),
                                    ("ops", "numeric", "ident,signed", ["-ops", "add,sub,mul,div,min,max"]),
+                                   ("arg", "ordered", "ident,signed", []),
                                    ("iter", "float64,uint16", "ident", [])):
         cases = c.tlc("MC_mask", "mask-" + mode, mask_consts(q, mode), inv)
         c.replay("mask-" + mode, cases, dtypes=dts, pals=pals, rotate=(2 if q else 0), extra=extra + (["-oprotate", "2"] if q and extra else []))
@@ -777,7 +788,8 @@ def check_C15(c):
                   "<=10 thorough) x {mask counts, any/all (flat and per axis), contiguous runs, edges, clumps, Filled with default and given "
                   "value}; every masking predicate x soft/hard x prior mask state for all element types; masks through slicing, lazy and "
                   "physical transposition, materialisation and cloning; masked operands in elementwise arithmetic (values compared at the "
-                  "positions valid in all operands, result mask = union); masked valid/invalid/validity stepping in both directions. The "
+                  "positions valid in all operands, result mask = union); Argmax/Argmin of masked tensors over all axes and per axis (masked "
+                  "elements do not take part); masked valid/invalid/validity stepping in both directions. The "
                   "mask of every live tensor is read back with MaskAt at every coordinate and compared with the specification's mask")
     c.rep.assumptions = ["MaskedValues (floats, tolerance based) is not modelled", "values under masked positions of operation results are unconstrained"]
 
